@@ -340,6 +340,12 @@ func judgeGxz(c *hx.Ctx, r *gxzRun) {
 	}
 	replay := map[string]any{"scenario": sc.String(), "cfg": sc.Cfg, "args": sc.Args, "plan": r.plan, "at": r.at, "exit": r.res.Exit, "killed": r.res.Killed,
 		"dir": map[string]string{"IN": r.in, "TGT": r.tgt, "TMP": r.tmp}, "stderr": string(r.res.Stderr), "syscalls": r.res.Events}
+	for _, f := range r.res.Foreign {
+		// gxz tried to remove or rename something that is neither its input, its temporary file
+		// nor its target (the stepper refused the call, so nothing was harmed)
+		c.Violation(sig("foreign-path-removed"), fmt.Sprintf("%s [%s at %s]: gxz called %s on %q, a path it has no business with", sc, phase, r.at, f.Name, f.A), replay)
+		return
+	}
 	dataSafe := r.in == "orig" || (!sc.Cfg.Alias && r.tgt == "out")
 	if !dataSafe {
 		c.Violation(sig("data-lost"), fmt.Sprintf("%s [%s at %s]: neither the input (%s) nor a complete output under the target name (%s) exists", sc, phase, r.at, r.in, r.tgt), replay)
@@ -506,8 +512,8 @@ func C10(c *hx.Ctx) {
 				}
 				c.Count(1, mut)
 				judgeGxz(c, r)
-				if (i+j)%5 == 0 && plan.SignalAt == 0 {
-					record(r)
+				if (i+j)%5 == 0 {
+					record(r) // also the interrupted runs: GxzFs has the handler's unlink of the open temporary file
 				}
 			}
 		}
